@@ -11,7 +11,7 @@ from fjverif.common import case_hash, rng_for
 PROPERTY = 'C01'
 LEVEL = 'exploration'
 NATIVE_VARIANT = 'opt'
-GEOMS = ['compact', 'gaps', 'w8', 'top', 'page-edge', 'window-cut', 'many', 'far', 'magic', 'many-pages']
+GEOMS = ['compact', 'gaps', 'w8', 'top', 'page-edge', 'window-cut', 'many', 'far', 'magic', 'many-pages', 'big-first']
 REQUIRED_FEATURES = ['unaligned-op', 'self-flip-jumpword', 'self-flip-flipword', 'input', 'input-unaligned', 'output',
                      'fault@flip-fetch', 'fault@flip', 'fault@jump-fetch', 'selfloop-with-selfflip', 'lazy-zero-read']
 
